@@ -149,6 +149,9 @@ func evalRec(run *ev.Run, cases []*RecCase, count bool) ([]string, [][]int, erro
 		}
 		for k, w := range c.Inputs {
 			r := outs[i].Results[k]
+			if r.Skipped {
+				continue
+			}
 			handed := false
 			for _, e := range r.Log {
 				if strings.HasPrefix(e, "R") {
